@@ -384,3 +384,107 @@ equivalent("c01-eq-process-index-loops", "C01", (E, """        for block in self
             if not rb.enabled:
                 continue
             rb.activate()"""))
+
+# ------------------------------------------------------------------------------------------ C17
+mutant("c17-regress-builtin-min", ["C17", "C02"], (F, "                np.minimum,  # elementwise minimum of two operands (np.min reduces a single array)", "                min,"), "FunctionFactory/min")
+mutant("c17-regress-bool-eq", "C17", (O, "        return scalar(np.isclose(a, b, rtol=0, atol=0, equal_nan=True))", "        return np.isclose(a, b, rtol=0, atol=0, equal_nan=True)"), "V7/Operation.eq/float")
+mutant("c17-lt-returns-bool", "C17", (O, "        return scalar(a < b)", "        return a < b"), "V7/Operation.lt/float")
+mutant("c17-gt-wrong-relation", "C17", (O, "        return scalar(a > b)", "        return scalar(a >= b)"), "V7/Operation.gt/relation")
+mutant("c17-mod-additive-precedence", "C17", (F, """                np.remainder,
+                arity=2,
+                precedence=p(2),""", """                np.remainder,
+                arity=2,
+                precedence=p(3),"""), "T1/FunctionFactory/%")
+mutant("c17-power-left-assoc", "C17", (F, """                "^",
+                "Power",
+                operator_type,
+                np.float_power,
+                arity=2,
+                precedence=p(1),
+                associativity=1,""", """                "^",
+                "Power",
+                operator_type,
+                np.float_power,
+                arity=2,
+                precedence=p(1),
+                associativity=-1,"""), "T1/FunctionFactory/^")
+mutant("c17-cos-is-sin", "C17", (F, """                "Cosine",
+                function_type,
+                np.cos,""", """                "Cosine",
+                function_type,
+                np.sin,"""), "T12/FunctionFactory/cos")
+mutant("c17-atan2-arity-1", "C17", (F, """                np.arctan2,
+                arity=2,""", """                np.arctan2,
+                arity=1,"""), "T12/FunctionFactory/atan2")
+mutant("c17-and-or-swapped-precedence", ["C17", "C06"], [(F, """                np.logical_and,
+                arity=2,
+                precedence=p(4),""", """                np.logical_and,
+                arity=2,
+                precedence=p(5),"""), (F, """                np.logical_or,
+                arity=2,
+                precedence=p(5),""", """                np.logical_or,
+                arity=2,
+                precedence=p(4),""")], "T1/FunctionFactory/")
+mutant("c17-and-right-assoc", ["C17", "C06"], (F, """                np.logical_and,
+                arity=2,
+                precedence=p(4),""", """                np.logical_and,
+                arity=2,
+                precedence=p(4),
+                associativity=1,"""), "T1/FunctionFactory/and")
+mutant("c17-pop-rule-lt", ["C17", "C06"], (T, "if (element.associativity < 0 and element.precedence <= top.precedence) or (", "if (element.associativity < 0 and element.precedence < top.precedence) or ("), "G1/")
+mutant("c17-pop-rule-right-le", ["C17", "C06"], (T, "element.associativity > 0 and element.precedence < top.precedence", "element.associativity > 0 and element.precedence <= top.precedence"), "G1/")
+mutant("c17-parse-pops-left-first", "C17", (T, """                if element.arity >= 1:
+                    node.right = stack.pop()
+                if element.arity == 2:
+                    node.left = stack.pop()""", """                if element.arity == 2:
+                    node.left = stack.pop()
+                if element.arity >= 1:
+                    node.right = stack.pop()"""), "W2/Function.parse")
+mutant("c17-evaluate-swaps-operands", "C17", (T, """                    result = self.element.method(
+                        self.left.evaluate(local_variables),
+                        self.right.evaluate(local_variables),
+                    )""", """                    result = self.element.method(
+                        self.right.evaluate(local_variables),
+                        self.left.evaluate(local_variables),
+                    )"""), "W2/Function.Node.evaluate")
+mutant("c17-arity-check-off-by-one", ["C17", "C16"], (T, "                if element.arity > len(stack):", "                if element.arity > len(stack) + 1:"), "X3/Function.parse/arity-guard")
+mutant("c17-comma-no-stack-check", ["C17", "C16"], (T, """                while stack and stack[-1] != "(":
+                    queue.append(stack.pop())
+                if not stack or stack[-1] != "(":
+                    raise SyntaxError(f"mismatching parentheses in: {formula}")
+
+            elif element and element.is_operator():""", """                while stack[-1] != "(":
+                    queue.append(stack.pop())
+
+            elif element and element.is_operator():"""), "X")
+mutant("c17-single-root-check-dropped", ["C17", "C16"], (T, """        if len(stack) != 1:
+            raise SyntaxError(f"invalid formula: '{formula}'")
+""", """        if len(stack) < 1:
+            raise SyntaxError(f"invalid formula: '{formula}'")
+"""), "X6/Function.parse/single-root")
+mutant("c17-own-x-check-dropped", "C17", (T, """        if "x" in self.variables:
+            raise ValueError(
+                "variable 'x' is reserved for internal use of Function term, please "
+                f"remove it from the map of variables: {self.variables}"
+            )
+""", ""), "W3/Function.membership/own-x")
+mutant("c17-own-variables-not-merged", "C17", (T, "        engine_variables.update(self.variables)\n", ""), "W3/Function.membership/environment")
+mutant("c17-duplicate-registration", "C17", (F, """                "fabs",
+                "Absolute",""", """                "abs",
+                "Absolute","""), "T1")
+equivalent("c17-eq-precedence-rescaled", ["C17", "C06"], (F, """        maximum = 100
+        step = 10
+        return maximum - importance * step""", """        maximum = 1000
+        step = 7
+        return maximum - importance * step"""))
+equivalent("c17-eq-gt-numpy-greater", "C17", (O, "        return scalar(a > b)", "        return scalar(np.greater(a, b))")) if False else None
+equivalent("c17-eq-pop-rule-demorgan", ["C17", "C06"], (T, """                    if (element.associativity < 0 and element.precedence <= top.precedence) or (
+                        element.associativity > 0 and element.precedence < top.precedence
+                    ):
+                        queue.append(stack.pop())
+                    else:
+                        break""", """                    left = element.associativity < 0
+                    right = element.associativity > 0
+                    if not ((left and not (element.precedence > top.precedence)) or (right and top.precedence > element.precedence)):
+                        break
+                    queue.append(stack.pop())"""))
